@@ -531,9 +531,7 @@ macro_rules! c18 {
 // bytes into a fresh backing store and CBMC runs out of memory (12 GB) in the propositional
 // reduction, also with a concrete new size; so the pre-state is built by a concrete-sized history
 // (cursor concrete) and the new size, the contents and the follow-up request stay symbolic.
-// The INV variants are kept for the thorough tier only as a record of the attempt.
-// @h props=C18 tier=thorough timeout=900 mem=24 bounds=CAP=64,MAXN=1,n=200(grow),INV-pre-state
-c18!(c18_truncate_inv_grow200_unsync_opt, Optimistic, 1, 2, Some(200), 0, 4);
+// (An INV-pre-state variant, `c18_truncate::<1,2,64>(Optimistic, Some(200), 0)`, ran out of 24 GB and is not registered.)
 
 /// history: a(A bytes) b(8 bytes) [c(rest) if FILL]; release a (becomes a free segment when A >= 16);
 /// truncate(n) with n symbolic; then one symbolic request.
@@ -657,10 +655,10 @@ c18h!(c18_truncate_part_unify_opt_shrink48, 20, false, Optimistic, true, 0, Some
 // @h props=C18 tier=thorough timeout=1800 mem=28 bounds=CAP=64,unify,history=a(20)b(8)-drop(a),n=48(shrink),follow-up-request optcover=state-only_variant
 c18h!(c18_truncate_part_unify_opt_shrink48_follow, 20, false, Optimistic, true, 0, Some(48));
 // thorough: the new size symbolic as well (a symbolic-sized backing allocation: 13 min / 20 GB class queries)
-// @h props=C18,C08 tier=thorough timeout=2400 mem=28 bounds=CAP=64,plain,history=a(24)b(8)c(rest)-drop(a),n<=96:symbolic optcover=state-only_variant
-c18h!(c18_truncate_full_plain_pess, 24, true, Pessimistic, false, 96, None);
-// @h props=C18,C08 tier=thorough timeout=2400 mem=28 bounds=CAP=64,unify,history=a(24)b(8)c(rest)-drop(a),n<=96:symbolic optcover=state-only_variant
-c18h!(c18_truncate_full_unify_opt, 24, true, Optimistic, true, 96, None);
+// @h props=C18,C08 tier=thorough timeout=2400 mem=28 bounds=CAP=64,plain,history=a(24)b(8)c(rest)-drop(a),n<=96:symbolic optcover=floored_at_allocated|allocation_in_grown_space|served_by_list_after_truncate|refused_after_truncate|served_from_fresh_space_after_truncate
+c18h!(c18_truncate_full_plain_pess, 24, true, Pessimistic, false, 96, None, nofollow);
+// @h props=C18,C08 tier=thorough timeout=2400 mem=28 bounds=CAP=64,unify,history=a(24)b(8)c(rest)-drop(a),n<=96:symbolic optcover=floored_at_allocated|allocation_in_grown_space|served_by_list_after_truncate|refused_after_truncate|served_from_fresh_space_after_truncate
+c18h!(c18_truncate_full_unify_opt, 24, true, Optimistic, true, 96, None, nofollow);
 // @h props=C18 tier=thorough timeout=1800 mem=28 bounds=CAP=64,unify,history=a(9)b(8)-drop(a):too-small,n=70 optcover=served_by_list_after_truncate|state-only_variant
 c18h!(c18_truncate_part_unify_small, 9, false, Optimistic, true, 0, Some(70));
 // @h props=C18,C08 tier=quick timeout=1800 mem=28 bounds=CAP=64,unify,list=None,n=70(grow),follow-up-request<=48 optcover=served_by_list_after_truncate|state-only_variant
@@ -1114,21 +1112,9 @@ pub(crate) fn c18_truncate_fresh(unify: bool, reserved: u32, n: usize, follow: b
 fn c18_truncate_fresh_unify_r5() {
   c18_truncate_fresh(true, 5, 96, false);
 }
-// @h props=C18 tier=thorough timeout=1800 mem=28 bounds=CAP=64,unify,reserved=5,nothing-allocated,n=96,follow-up-request optcover=state-only_variant
-#[kani::proof]
-#[kani::unwind(10)]
-fn c18_truncate_fresh_unify_r5_follow() {
-  c18_truncate_fresh(true, 5, 96, true);
-}
 // @h props=C18 tier=quick timeout=1200 mem=28 bounds=CAP=64,plain,reserved=3,nothing-allocated,n=40,state-only optcover=allocation_after_truncate
 #[kani::proof]
 #[kani::unwind(10)]
 fn c18_truncate_fresh_plain_r3() {
   c18_truncate_fresh(false, 3, 40, false);
-}
-// @h props=C18 tier=thorough timeout=1800 mem=28 bounds=CAP=64,plain,reserved=3,nothing-allocated,n=40,follow-up-request optcover=state-only_variant
-#[kani::proof]
-#[kani::unwind(10)]
-fn c18_truncate_fresh_plain_r3_follow() {
-  c18_truncate_fresh(false, 3, 40, true);
 }
